@@ -49,7 +49,9 @@ pub fn extract_return_type(ret_type: &ReturnType) -> &Path {
     };
     let segments = &type_path.path.segments;
     assert!(!segments.is_empty());
-    let segment = &segments[0];
+    // The result type may be written with a path (`std::result::Result<..>`, `sylvia::cw_std::StdResult<..>`):
+    // its name and arguments are those of the last segment.
+    let segment = segments.last().unwrap();
 
     // In case of aliased result user need to define the return type by hand
     if segment.ident != "Result" && segment.ident != "StdResult" {
@@ -60,7 +62,7 @@ pub fn extract_return_type(ret_type: &ReturnType) -> &Path {
                     Please use #[sv::msg(return_type=<your_return_type>)]"
         );
     }
-    let PathArguments::AngleBracketed(args) = &segments[0].arguments else {
+    let PathArguments::AngleBracketed(args) = &segment.arguments else {
         unreachable!()
     };
     let args = &args.args;
